@@ -11,12 +11,12 @@
    - GraphML.networkx_to_neo4j, graph_util.py:38-66: label / labels markup                   (to_neo4j)
    - nx.read_graphml (GraphMLReader.decode_data_elements)                                    (read_graphml)
    - node_link_data / node_link_graph at the value level (json.dumps/loads = identity on values)
-   - the store: add_graph :739-763, add_graph_direct :765-779, __del_graph_nl :781-786,
-     extract_graph :793-812                                                                  (store)
-   - the importer: _read_from_file :893-905 (format sniffing), import_graph_from_string :907-930,
-     import_graph_from_string_direct :932-954, import_graph_from_file (abc_property_graph.py:1445),
-     import_graph_from_file_direct :956-971, get_graph_id (abc_property_graph.py:1531-1567)
-   - serialize_graph :365-385, validate_graph :65-80 *)
+   - the store: add_graph :741-763, add_graph_direct :765-781, __del_graph_nl :783-788,
+     extract_graph :795-814                                                                  (store)
+   - the importer: _read_from_file :904-917 (format sniffing), import_graph_from_string :919-941,
+     import_graph_from_string_direct :943-964, import_graph_from_file (abc_property_graph.py:1445),
+     import_graph_from_file_direct :966-981, get_graph_id (abc_property_graph.py:1532-1567)
+   - serialize_graph :363-385, validate_graph :65-80 *)
 From Coq Require Import String.
 From Coq Require Import List NArith ZArith Bool.
 From FIM Require Import Base.Str Model.Serial1Text.
@@ -558,3 +558,23 @@ Definition fmt_ok (f : fmt) (g : nxg) : bool :=
 Definition fmt_no_cr (f : fmt) (g : nxg) : bool :=
   match f with GraphMLFmt => graph_no_cr g | JsonFmt => true end.
 Definition text_graph (t : gtext) : option nxg := read_any t.       (* the graph a text denotes *)
+
+(* one load into the store (storage.add_graph / storage.add_graph_direct), result dropped *)
+Definition load_op (s : store) (x : bool * str * nxg) : store :=
+  let '(direct, gid, g) := x in
+  fst (if direct then add_graph_direct s gid g else add_graph s gid g).
+
+(* ------------------------------------------------------------------ example data (non-vacuity Examples of Properties/C01.v) *)
+Definition ex_graph : nxg :=
+  {| g_nodes :=
+       [(7%N, [(P_NodeID, PStr (S"n1 <&> ""q"" '")); (P_Class, PStr (S"NetworkNode")); (P_GraphID, PStr (S"g"));
+               (10%N, PStr [32; 233; 8232; 128512; 38; 35; 49; 51; 59; 32]%N); (11%N, PStr []);
+               (12%N, PInt (-7)); (13%N, PBool true)]);
+        (9%N, [(P_GraphID, PStr (S"g")); (P_NodeID, PStr (S"n2")); (P_Class, PStr (S"Component"));
+               (10%N, PInt 100000000000000000000); (11%N, PStr [9; 10; 93; 93; 62]%N)])];
+     g_edges := [(9%N, 7%N, [(P_Class, PStr (S"has")); (10%N, PStr (S"<!-- -->"))])] |}.
+Definition ex_other : nxg :=
+  {| g_nodes := [(1%N, [(P_GraphID, PStr (S"other")); (P_NodeID, PStr (S"x")); (P_Class, PStr (S"Link"))])]; g_edges := [] |}.
+Definition ex_store : store :=
+  fst (add_graph_direct (fst (add_graph_direct empty_store (S"other") ex_other)) (S"g") ex_graph).
+
